@@ -52,7 +52,7 @@ func genAES(t *rapid.T) *AES {
 
 // genKeyLen: the three AES key sizes most of the time, otherwise any length 0..80.
 func genKeyLen(t *rapid.T, label string) int {
-	if rapid.IntRange(0, 9).Draw(t, label+":odd") < 6 {
+	if rapid.IntRange(0, 9).Draw(t, label+":odd") < 7 {
 		return rapid.SampledFrom([]int{16, 24, 32}).Draw(t, label)
 	}
 	if rapid.Bool().Draw(t, label+":edge") {
@@ -93,7 +93,7 @@ func genKeyPair(t *rapid.T) (k1, k2 []byte) {
 		if rapid.IntRange(0, 4).Draw(t, "prefixfree") == 0 {
 			p = rapid.IntRange(0, 64).Draw(t, "prefixlenfree")
 		}
-		n1 := rapid.SampledFrom([]int{0, 0, 1, 2, 8, 9, 16}).Draw(t, "suffix1len")
+		n1 := rapid.SampledFrom([]int{0, 0, 0, 0, 1, 2, 8, 16}).Draw(t, "suffix1len")
 		n2 := rapid.SampledFrom([]int{0, 1, 1, 2, 8, 9, 16}).Draw(t, "suffix2len")
 		if rapid.IntRange(0, 2).Draw(t, "suffixfree") == 0 {
 			n1, n2 = rapid.IntRange(0, 80-p).Draw(t, "suffix1lenfree"), rapid.IntRange(0, 80-p).Draw(t, "suffix2lenfree")
